@@ -67,6 +67,11 @@ def make_pair(utype, verdict, r, keys):
                 kmd = metadata.delegating_doc("key_mgr", 1, {"root": metadata.rule([pub[1]], 1), "pkg_mgr": metadata.rule([pub[3]], 1)}, r)
                 trusted = {"signatures": rsign(kmd, [2]), "signed": kmd}
                 return trusted, {"signatures": rsign(doc, [1]), "signed": doc}
+        if verdict == "SignatureError" and r.random() < .4:
+            # signed by the right key, validly, but with the raw (non-OpenPGP) kind of signature that only non-root roles use
+            return trusted, {"signatures": rsign(doc, [1]), "signed": doc}
+        if verdict == "MetadataVerificationError" and r.random() < .3:
+            return trusted, {"signatures": rsign(doc, [1]), "signed": doc}       # wrong version AND raw signatures
         signers = [] if verdict == "SignatureError" and r.random() < .5 else [2] if verdict == "SignatureError" else [1]
         return trusted, {"signatures": gsign(doc, signers), "signed": doc}
     if utype == "key_mgr":
